@@ -32,6 +32,7 @@ type Broker struct {
 	HeartBeat     time.Duration
 	OnSubscribe   func(ctx context.Context, id string, topic string)
 	OnUnsubscribe func(ctx context.Context, id string, topic string, messages []Message)
+	offlineLock   sync.Mutex
 }
 
 func NewBroker(service *core.Service) *Broker {
@@ -196,8 +197,16 @@ func (b *Broker) pending(id string) (found bool) {
 }
 
 func (b *Broker) offline(ctx context.Context, topics *sync.Map, id string, topic string) bool {
-	if messages, ok := topics.Load(topic); ok {
+	// looking the cache up and taking it out are one step: a second offline of the topic (the
+	// client's unsubscribe beside the heartbeat's) that had looked before a new subscription
+	// came would take the new cache out without ending it
+	b.offlineLock.Lock()
+	messages, ok := topics.Load(topic)
+	if ok {
 		topics.Delete(topic)
+	}
+	b.offlineLock.Unlock()
+	if ok {
 		// the cache ends whether or not anybody listens: a publisher that has loaded it before
 		// the Delete above would otherwise append to it, report success, and the message
 		// would be seen by nobody
